@@ -19,7 +19,7 @@ class Contract:
                  props=(), inline=False, trusted=False, bind=None, lang=None, cases=None,
                  raises=(), pure=True, note='', order_axioms=False, arith_axioms=False,
                  extra_axioms=(), returns=None, ghost=None, replay=None, exc_ok=False, kinds=None,
-                 lemmas=(), theories=()):
+                 lemmas=(), theories=(), hints=None):
         self.name = name
         self.params = params or {}
         self.requires = list(requires)
@@ -45,6 +45,7 @@ class Contract:
         self.kinds = kinds or {}
         self.lemmas = tuple(lemmas)
         self.theories = tuple(theories)
+        self.hints = hints or {}
 
 
 def contract(name, **kw):
@@ -130,3 +131,31 @@ def induction_lemma(name, params, k, lo, hyp, prop, doc='', axioms=(), props=(),
     l = Lemma(name, ax, obs, doc)
     LEMMAS[name] = l
     return l
+
+
+def fuel_function(name, sorts, ret, body, fuel=2):
+    """Boogie/Dafny-style fuel encoding of a recursive spec function.
+    body(rec, *args) builds the definition using `rec` for the recursive calls.
+    Returns (top-level z3 function, axioms callable)."""
+    import z3
+    fs = [z3.Function(name if i == fuel else '%s_f%d' % (name, i), *(list(sorts) + [ret])) for i in range(fuel + 1)]
+    args = [z3.Const('%s_a%d' % (name, i), s) for i, s in enumerate(sorts)]
+
+    def axioms():
+        ax = []
+        for i in range(fuel, 0, -1):
+            hi, lo = fs[i], fs[i - 1]
+            ax.append(z3.ForAll(args, hi(*args) == lo(*args), patterns=[hi(*args)]))
+            ax.append(z3.ForAll(args, hi(*args) == body(lo, *args), patterns=[hi(*args)]))
+        return ax
+    return fs[fuel], axioms
+
+
+def _register_triggers():
+    from .vals import T1f, T2f
+    from .ops import zint
+    spec('T1', z3=lambda ex, st, a: T1f(zint(a)), py=lambda ex, st, a: True)
+    spec('T2', z3=lambda ex, st, a, b: T2f(zint(a), zint(b)), py=lambda ex, st, a, b: True)
+
+
+_register_triggers()
